@@ -301,34 +301,28 @@ func (x *Exec) makeClosure(st *State, lit *ast.FuncLit) Term {
 	f := Term{S: x.d.fresh("clo_"+u.Key, "Fun"), Sort: "Fun", T: x.info.TypeOf(lit)}
 	st.assume(sNot(sEq(f.S, "nilF")))
 	st.closures[f.S] = u
-	if u.Spec != nil && len(u.Spec.clauses("ghost")) > 0 {
-		if x.ghostReady(st, u) {
-			x.assumeGhost(st, f, u)
-		} else {
-			st.pending = append(st.pending, pendingGhost{f, u})
+	if u.Spec != nil {
+		for _, c := range u.Spec.clauses("ghost") {
+			if x.ghostReady(st, u, c) {
+				st.assume(x.cxBoolIn(st, c.Expr, st, map[string]Term{"self": f}, u))
+			} else {
+				st.pending = append(st.pending, pendingGhost{f, u, c})
+			}
 		}
 	}
 	return f
 }
 
-// ghostReady: every late-bound variable mentioned by the ghost clauses has been assigned.
-func (x *Exec) ghostReady(st *State, u *UnitInfo) bool {
+// ghostReady: every late-bound variable mentioned by the clause has been assigned.
+func (x *Exec) ghostReady(st *State, u *UnitInfo, c *Clause) bool {
 	for _, v := range u.FreeVars {
-		if x.prog.LateAny[v] {
+		if x.prog.LateAny[v] && mentions(c.Expr, v.Name()) {
 			if _, unset := st.ghost[x.lateKey(v)]; unset {
 				return false
 			}
 		}
 	}
 	return true
-}
-
-
-func (x *Exec) assumeGhost(st *State, f Term, u *UnitInfo) {
-	binds := map[string]Term{"self": f}
-	for _, c := range u.Spec.clauses("ghost") {
-		st.assume(x.cxBoolIn(st, c.Expr, st, binds, u))
-	}
 }
 
 func (x *Exec) afterAssignVar(st *State, v *types.Var) {
@@ -338,8 +332,8 @@ func (x *Exec) afterAssignVar(st *State, v *types.Var) {
 	}
 	var rest []pendingGhost
 	for _, p := range st.pending {
-		if x.ghostReady(st, p.unit) {
-			x.assumeGhost(st, p.fun, p.unit)
+		if x.ghostReady(st, p.unit, p.clause) {
+			st.assume(x.cxBoolIn(st, p.clause.Expr, st, map[string]Term{"self": p.fun}, p.unit))
 		} else {
 			rest = append(rest, p)
 		}
@@ -374,6 +368,11 @@ func (x *Exec) staticCall(st *State, e *ast.CallExpr, fn *types.Func, recv *Term
 	if recv != nil && recv.Sort == "Ref" && u != nil {
 		x.oblige(st, "requires", "call["+u.Key+"].requires[recv-non-nil]", sNot(sEq(recv.S, "nilRef")), e)
 		st.assume(sNot(sEq(recv.S, "nilRef")))
+	}
+	if spec != nil && u != nil && u.Body != nil && (len(spec.Params) != sig.Params().Len() || len(spec.Results) != sig.Results().Len()) {
+		// the contract no longer matches the callee's signature: fall back to its body
+		x.assumed["contract of "+fn.FullName()+" does not match its signature; callee inlined"] = true
+		spec = nil
 	}
 	if spec != nil {
 		if spec.Kind == "extern" || spec.Flags["trusted"] {
@@ -516,6 +515,7 @@ func (x *Exec) applyModifies(st *State, spec *UnitSpec, pre *State, binds map[st
 	st.clk = nclk
 	// which keys get which exceptions
 	exc := map[string][]string{}
+	excSort := map[string]string{}
 	wildKeys := map[string]bool{}
 	modelExc := map[string][]string{}
 	modW := false
@@ -536,7 +536,7 @@ func (x *Exec) applyModifies(st *State, spec *UnitSpec, pre *State, binds map[st
 					x.undecide("modifies: unknown field %s in %s", l.Sel, loc.cxs())
 					return
 				}
-				_ = vs
+				excSort[key] = vs
 				exc[key] = append(exc[key], obj.S)
 			case *cxCall:
 				switch l.Fun {
@@ -547,11 +547,13 @@ func (x *Exec) applyModifies(st *State, spec *UnitSpec, pre *State, binds map[st
 					sl := x.cxTermIn(st, l.Args[0], pre, binds, nil)
 					es, _ := x.elemSortOf(sl.T)
 					exc[elemKey(es)] = append(exc[elemKey(es)], "(s_base "+sl.S+")")
+					excSort[elemKey(es)] = "(Array Int " + es + ")"
 				case "cell":
 					p := x.cxTermIn(st, l.Args[0], pre, binds, nil)
 					et := p.T.Underlying().(*types.Pointer).Elem()
 					es := x.d.sortOf(et)
 					exc["cell:"+es] = append(exc["cell:"+es], p.S)
+					excSort["cell:"+es] = es
 				default:
 					if _, ok := x.prog.Contracts.Models[l.Fun]; ok {
 						obj := x.cxTermIn(st, l.Args[0], pre, binds, nil)
@@ -567,15 +569,21 @@ func (x *Exec) applyModifies(st *State, spec *UnitSpec, pre *State, binds map[st
 	if modW {
 		st.ghost["W"] = Term{S: x.d.fresh("W", "World"), Sort: "World"}
 	}
+	for key := range wildKeys {
+		if _, ok := st.fields[key]; !ok {
+			if vs := x.fieldSortByKey(key); vs != "" {
+				x.fieldVer(st, key, vs)
+			}
+		}
+	}
+	for key, vs := range excSort {
+		if _, ok := st.fields[key]; !ok {
+			x.fieldVer(st, key, vs)
+		}
+	}
 	for _, key := range sortedKeys(st.fields) {
 		v := st.fields[key]
 		x.havocField(st, key, v.valSort, clk, exc[key], wildKeys[key])
-	}
-	for key := range exc {
-		if _, ok := st.fields[key]; !ok {
-			// field not yet touched in this unit: create then havoc
-			x.undecide("internal: modifies on untouched field %s", key)
-		}
 	}
 	for _, name := range sortedKeys(st.models) {
 		v := st.models[name]
@@ -702,7 +710,7 @@ func typeContractKey(t types.Type) []string {
 	if n, ok := types.Unalias(t).(*types.Named); ok {
 		out = append(out, n.Obj().Name())
 	}
-	out = append(out, types.TypeString(t.Underlying(), func(p *types.Package) string { return p.Name() }))
+	out = append(out, strings.ReplaceAll(types.TypeString(t.Underlying(), func(p *types.Package) string { return p.Name() }), " ", ""))
 	return out
 }
 
